@@ -2,7 +2,7 @@
 import numpy as np
 
 from . import exprs, pipe
-from .core import coq_eval_many, parse_count_fail, proof_stage
+from .core import coq_eval_many, flist, parse_count_fail, proof_stage
 
 K_HONEST = 1e4          # true error <= K * error_estimate + FLOOR * local scale  (calibrated: worst observed ratio 3.6e2)
 FLOOR = 1e-9
@@ -228,9 +228,59 @@ def nan_inside_cases(ctx):
     ctx.cov['nan_inside_cases_with_nan'] = hits
 
 
+KHDR = """Require Import NDT.Arith.Ops NDT.Arith.OpsFloat NDT.Model.Select.
+From Coq Require Import PrimFloat ZArith List Bool. Import ListNotations.
+Definition C1EM8 := 0x1.5798ee2308c3ap-27%float.
+(* one column: estimates, errors -> (penalised errors, selected index) *)
+Definition okK (c : list float * list float * list float * nat) : bool :=
+  let '(der, errs, pen, ix) := c in
+  let p := penal OpsF C1EM8 0x1.8p+0%float 0x1p-1%float (ofZ OpsF 10%Z) der errs in
+  leqf p pen && Nat.eqb (argmin_mid OpsF p) ix.
+"""
+
+
+def kernel_cases(ctx, N):
+    """white-box tie of the selection kernel on designed columns: _Limit._add_error_to_outliers (trim factor 10, 1.5 IQR fences, the
+    1e-8 threshold, np.percentile's interpolation) and _get_arg_min (middle of the tied minima) against Model/Select.v, bit for bit"""
+    from numdifftools.limits import _Limit
+    rng = ctx.rng(61)
+    cases, descs = [], []
+    for k in range(N):
+        m = int(rng.integers(3, 13))
+        med = float(rng.choice([1.0, -3.0, 1e-9, 2e-8, 250.0])) * float(rng.uniform(0.5, 2))
+        # values spread around the median by factors that straddle 1/10, 1/5, 5 and 10, plus small additive noise
+        fac = rng.choice([1.0, 1.0, 1.0, 0.09, 0.11, 0.19, 0.21, 4.9, 5.1, 9.9, 10.1, -1.0, 30.0], size=m)
+        der = med * fac * (1 + rng.normal(size=m) * float(rng.choice([1e-12, 1e-6, 1e-2])))
+        errs = np.abs(rng.normal(size=m)) * float(rng.choice([1e-12, 1e-8, 1e-3]))
+        if k % 3 == 0:
+            errs = np.round(errs / errs.max() * 3) * 1e-9        # ties among the smallest errors (middle-of-ties rule)
+        col = der.reshape(-1, 1).copy()
+        pen = errs.reshape(-1, 1) + _Limit._add_error_to_outliers(col)
+        ix = int(_Limit._get_arg_min(pen.copy())[0])
+        cases.append('(%s, %s, %s, %d%%nat)' % (flist(der), flist(errs), flist(pen[:, 0]), ix))
+        descs.append({'estimates': der.tolist(), 'errors': errs.tolist(), 'penalised': pen[:, 0].tolist(), 'selected': ix})
+        ctx.count(1, ('kernel', m, k % 3 == 0))
+    return cases, descs
+
+
 def run(ctx):
     import numdifftools as nd
     proof_stage(ctx, 'Props/C02.v')
+    kc, kd = kernel_cases(ctx, ctx.n(300, 3000))
+    kitems = [('C02_K_%d' % s_, KHDR + 'Definition cases := [\n' + ';\n'.join(kc[s_:s_ + 300]) + '].\nEval vm_compute in (List.length cases, failing okK cases).\n') for s_ in range(0, len(kc), 300)]
+    kbad = 0
+    for name, (rc, out) in sorted(coq_eval_many(kitems).items()):
+        s_ = int(name.split('_')[2])
+        pr = parse_count_fail(out)
+        if rc != 0 or pr is None:
+            ctx.brk('correspondence', 'case file %s could not be evaluated' % name, out[-1500:])
+            continue
+        for i in pr[1]:
+            kbad += 1
+            if kbad <= 3:
+                ctx.brk('correspondence', 'the outlier penalty / arg-min of limits._Limit differs bit-for-bit from Model/Select.v (trim factor 10, 1.5 IQR fences, 1e-8 threshold, percentile interpolation, middle-of-ties rule)', kd[s_ + i])
+    ctx.cov['kernel_cases'] = len(kc)
+    ctx.cov['kernel_disagreements'] = kbad
     rng = ctx.rng(1)
     cases, descs = [], []
     skipped = {}
